@@ -411,7 +411,7 @@ def dists(draw, scale=None, families=None, small=True):
     if fam == "schulz_zimm":
         mn = max(20.0, m)
         ratio = draw(st.sampled_from([1.05, 1.1, 1.2, 1.25, 1.5, 2.0]))
-        return Dist(fam, (float(round(mn * ratio)), mn), style)
+        return Dist(fam, (min(float(round(mn * ratio)), 2.0 * mn), mn), style)  # never Mw/Mn > 2 (z < 1: outside the documented region)
     if fam == "log_normal":
         return Dist(fam, (max(10.0, m), draw(st.sampled_from([1.05, 1.1, 1.3, 1.8]))), style)
     if fam == "poisson":
